@@ -1,6 +1,7 @@
 package props
 
 import (
+	"bytes"
 	"context"
 	"fmt"
 	"os"
@@ -27,7 +28,7 @@ func init() {
 			"server side only; the client response read path is exercised by C11's corrupt-response sub-workload when built",
 			"a parse-level rejection is recognised as: last response on the connection is 400/413/408, no handler ran for it and Engine.Serve returned a non-nil error",
 		},
-		RequiredProbes: []string{"mut-flip", "mut-insert", "mut-delete", "mut-dup", "mut-token", "truncate", "rst", "rejected", "too-large", "fs-route", "multipart", "cookie", "trailer", "recovery-engine", "default-engine"},
+		RequiredProbes: []string{"mut-flip", "mut-insert", "mut-delete", "mut-dup", "mut-token", "truncate", "rst", "rejected", "too-large", "too-large-multipart", "too-large-chunked", "hostile-chunk-size", "fs-route", "multipart", "cookie", "trailer", "recovery-engine", "default-engine"},
 	}
 }
 
@@ -246,11 +247,28 @@ func RunC03(ep *core.Episode) {
 			m.Headers = append(m.Headers, wire.Header{K: "Trailer", V: "X-T"})
 			m.Trailers = []wire.Header{{K: "X-T", V: "tv"}}
 			ep.Probe("trailer")
-		case 5: // body around the limit
+		case 5: // body around the limit: plain, multipart or chunked
 			m.Method = "POST"
 			sz := tp.Pick("lim", 2999, 3000, 3001, 5000, 10)
 			m.Body = core.PatternBytes(byte(i), sz)
-			if sz > 3000 && tooLargeAt < 0 {
+			switch tp.Choose("limkind", 3) {
+			case 1:
+				if sz < 200 {
+					break
+				}
+				m.Headers = append(m.Headers, wire.Header{K: "Content-Type", V: "multipart/form-data; boundary=xyz"})
+				pre := "--xyz\r\nContent-Disposition: form-data; name=\"file\"; filename=\"a.bin\"\r\nContent-Type: application/octet-stream\r\n\r\n"
+				post := "\r\n--xyz--\r\n"
+				if fill := sz - len(pre) - len(post); fill > 0 {
+					m.Body = []byte(pre + string(core.PatternBytes(byte(i), fill)) + post)
+				}
+				ep.Probe("too-large-multipart")
+			case 2:
+				m.Chunked = true
+				m.ChunkSizes = splitChunks(tp, len(m.Body))
+				ep.Probe("too-large-chunked")
+			}
+			if len(m.Body) > 3000 && tooLargeAt < 0 {
 				tooLargeAt = i
 				ep.Probe("too-large")
 			}
@@ -289,6 +307,17 @@ func RunC03(ep *core.Episode) {
 			}
 		}
 		b, bs := m.Encode()
+		if m.Chunked && ep.Param("tokens") != "off" && tp.Chance("chunktoken", 1, 4) {
+			// replace the first chunk-size line by a hostile one
+			head := bytes.Index(b, []byte("\r\n\r\n")) + 4
+			if eol := bytes.Index(b[head:], []byte("\r\n")); eol >= 0 {
+				tok := []string{"ffffffffffffffff", "8000000000000000", "7fffffffffffffff", "-1", "0x10", "fffffffffffffffff", "1g", "", " 5", "5 ", "00000000000000000005", "FFFFFFFF"}[tp.Choose("chunktok", 12)]
+				b = append(append(append([]byte(nil), b[:head]...), tok...), b[head+eol:]...)
+				anyToken = true
+				ep.Probe("mut-token")
+				ep.Probe("hostile-chunk-size")
+			}
+		}
 		for _, x := range bs {
 			bounds = append(bounds, len(stream)+x)
 		}
@@ -397,7 +426,13 @@ func RunC03(ep *core.Episode) {
 	}
 	// buffered mode: a body over the limit is always rejected (only judged on unmutated, complete streams)
 	if !o.Stream && tooLargeAt >= 0 && len(mdesc) == 0 && endKind == 0 && !anyToken {
-		if nresp <= tooLargeAt || cl.Resps[tooLargeAt].Status != 413 {
+		earlierOK := true
+		for k := 0; k < tooLargeAt && k < nresp; k++ {
+			if cl.Resps[k].Status/100 != 2 {
+				earlierOK = false
+			}
+		}
+		if earlierOK && (nresp <= tooLargeAt || cl.Resps[tooLargeAt].Status != 413) {
 			st := 0
 			if nresp > tooLargeAt {
 				st = cl.Resps[tooLargeAt].Status
